@@ -12,6 +12,7 @@ accepted the spec's type for that expression on the matching target.
 import json
 import os
 import re
+import shutil
 import sys
 import time
 
@@ -57,47 +58,26 @@ def tlc_c09(mode, plat, lang, work, extra_env=None):
 def run_shard(args):
     plat, lang = args
     work = vlib.mktmp("c09-%s-%s" % (plat, "cxx" if lang == "c++" else "c"))
-    tlc_c09("gen", plat, lang, work)
-    rows = vlib.read_ndjson(os.path.join(work, "cases.ndjson"))
-    hdr, cases = rows[0], rows[1:]
-    if hdr["ncases"] != len(cases):
-        raise vlib.InfraError("case list truncated for %s/%s" % (plat, lang))
-    batches = cprobe.chunks(cases, BATCH)
-
-    def probe(ib):
-        i, batch = ib
-        info, _ = cprobe.run_cppcheck_batch(work, "cc%d" % i, lang, ["--platform=" + plat], hdr["preamble_cc"],
-                                            [c["cc"] for c in batch], hdr["epilogue"])
-        cl = cprobe.run_clang_batch(work, "w%d" % i, lang, hdr["triple"], hdr["preamble_w"],
-                                    [c["w"] for c in batch], hdr["epilogue"])
-        return info, cl
-
-    results = cprobe.pmap(probe, list(enumerate(batches)), workers=3)
-    obs = []
-    for batch, (info, cl) in zip(batches, results):
-        for c, inf, ce in zip(batch, info, cl):
-            has = bool(inf and inf.get("type"))
-            obs.append({"id": c["id"], "expr": c["expr"], "has": has,
-                        "tok": (inf or {}).get("tok") or "", "type": (inf or {}).get("type") or "",
-                        "sign": (inf or {}).get("sign") or "", "pointer": (inf or {}).get("pointer") or 0,
-                        "clang": "skip" if not c["w"] else ("fail" if ce else "ok"),
-                        "clang_msg": ce or ""})
-    vlib.write_ndjson(os.path.join(work, "obs.ndjson"), obs)
-    r = tlc_c09("judge", plat, lang, work)
+    # gen -> probe (cppcheck --dump + clang, drivers/c09probe.py via IOExec) -> judge, in one TLC run
+    r = tlc_c09("run", plat, lang, work, {"C09_WORK": work, "C09_DRIVER": os.path.join(vlib.VERIF, "drivers", "c09probe.py"),
+                                          "CPROBE_CPPCHECK": cprobe.private_cppcheck(), "VERIF_TMP": work})
     m = re.search(r'"C09VERDICT",(.*?)>>', r.out.replace("\n", " "))
     if not m:
         raise vlib.InfraError("C09.tla gave no verdict for %s/%s\n%s" % (plat, lang, r.out[-2000:]))
     parts = [x.strip().strip('"') for x in m.group(1).split(",")]
     counts = {parts[i]: int(parts[i + 1]) for i in range(0, len(parts) - 1, 2)}
+    cases = vlib.read_ndjson(os.path.join(work, "cases.ndjson"))[1:]
+    obs = vlib.read_ndjson(os.path.join(work, "obs.ndjson"))
     notable = vlib.read_ndjson(os.path.join(work, "out.ndjson"))
     msgs = {o["id"]: o["clang_msg"] for o in obs if o["clang_msg"]}
     for n in notable:
         n["platform"], n["lang"] = plat, lang
         if n["id"] in msgs:
             n["clang_msg"] = msgs[n["id"]]
-    if counts.get("desync"):
+    if counts.get("desync") or counts.get("cases") != len(cases):
         raise vlib.InfraError("case list / observation desynchronised for %s/%s" % (plat, lang))
     samples = [{"platform": plat, "lang": lang, "expr": c["expr"], "rule": c["rule"], "assert": c["w"]} for c in cases[:: max(1, len(cases) // 3)][:3]]
+    shutil.rmtree(work, ignore_errors=True)
     return {"plat": plat, "lang": lang, "counts": counts, "notable": notable, "samples": samples}
 
 
@@ -128,9 +108,14 @@ def run(platforms, langs):
     if "native" in platforms and not cprobe.host_is_lp64_linux():
         platforms = [p for p in platforms if p != "native"]
     cprobe.private_cppcheck()
-    vlib.tlc_must_pass("CIntLaws", "Empty.cfg", workers=1, timeout=600, xmx="2g")
-    shards = cprobe.pmap(run_shard, [(p, l) for p in platforms for l in langs], workers=cprobe.WORKERS)
-    return shards
+
+    def task(t):
+        if t == "laws":
+            return vlib.tlc_must_pass("CIntLaws", "Empty.cfg", workers=1, timeout=900, xmx="2g")
+        return run_shard(t)
+
+    res = cprobe.pmap(task, ["laws"] + [(p, l) for p in platforms for l in langs], workers=cprobe.WORKERS + 1)
+    return res[1:]
 
 
 def main(tier, seed, replay=None):
